@@ -453,3 +453,80 @@ Theorem C02_weighted_select_rows :
       nth_error rw j = (if b then nth_error ow j else nth_error cw j).
 Proof. exact wwhere_rows. Qed.
 Print Assumptions C02_weighted_select_rows.
+
+(** * n-dimensional values: per-individual values with a TRAILING shape, [right_broadcasting] both ways (State/StateNdExec.v)
+
+    [tens] = nested lists of exact atoms (row [i] of a per-individual value is an element of a list whatever its trailing shape);
+    [twhere (rb, m) old cur] = [torch.where] with the 1-d [subset] aligned on the first axis ([rb = true], the default of
+    [State.revert]) or on the last one ([right_broadcasting=False]), restricted to the documented contract (same shapes, one mask
+    entry per index of that axis); [twhere_torch] / [nselect_torch] = what torch does, broadcasting and refusals included.
+    Tie: directed [State.revert] calls on real states compared with both inside Coq on every run ([check_nselect]). *)
+From Leaspy Require Import State.StateNdExec State.StateNdExecProofs.
+
+(** right-broadcasting: row [j] of the result is the FORKED row where [m j] holds and the CURRENT row elsewhere, the rows being
+    tensors of ANY shape *)
+Theorem C02_nd_select_rows :
+  forall m o c r, twhere (true, m) o c = Some r ->
+    length (rows r) = length m /\
+    forall j b, nth_error m j = Some b ->
+      nth_error (rows r) j = (if b then nth_error (rows o) j else nth_error (rows c) j).
+Proof. exact twhere_rows. Qed.
+Print Assumptions C02_nd_select_rows.
+
+(** ... values and weights alike (any non-negative weights): row [j] of the value and row [j] of the weight come from the same side *)
+Theorem C02_nd_weighted_select_rows :
+  forall m ov ow cv cw r, nselect (true, m) (NW ov (Some ow)) (NW cv (Some cw)) = Some r ->
+    exists rv rw, r = NW rv (Some rw) /\ length (rows rv) = length m /\ length (rows rw) = length m /\
+    forall j b, nth_error m j = Some b ->
+      nth_error (rows rv) j = (if b then nth_error (rows ov) j else nth_error (rows cv) j) /\
+      nth_error (rows rw) j = (if b then nth_error (rows ow) j else nth_error (rows cw) j).
+Proof. exact nselect_rows. Qed.
+Print Assumptions C02_nd_weighted_select_rows.
+
+(** [right_broadcasting=False]: the mask is aligned on the LAST axis — every innermost vector of the result (index path [p] over
+    all the axes but the last) is the entry-by-entry selection of the two innermost vectors at the same path *)
+Theorem C02_nd_last_axis :
+  forall m o c r s, twhere (false, m) o c = Some r -> shape o = Some s ->
+    forall p o' c', length p = length s - 1 -> tsub p o = Some o' -> tsub p c = Some c' ->
+      tsub p r = Some (TL (selp m (rows o') (rows c'))).
+Proof. exact twhere_last_axis. Qed.
+Print Assumptions C02_nd_last_axis.
+
+(** refusals: (1) the assertion [old_v.shape == cur_v.shape] of [revert] *)
+Theorem C02_nd_refused_bad_shapes :
+  forall mk o c, shape o <> shape c -> twhere_torch mk o c = None /\ twhere mk o c = None.
+Proof. exact twhere_torch_bad_shapes. Qed.
+Print Assumptions C02_nd_refused_bad_shapes.
+
+(** (2) torch's broadcasting error: the axis the mask is aligned on has length [k], the mask has neither length [k] nor 1, [k <> 1] *)
+Theorem C02_nd_refused_by_torch :
+  forall rb m o c s k, shape o = Some s -> shape c = Some s ->
+    nth_error s (mdepth rb s) = Some k -> Forall (fun n => 0 < n) (firstn (mdepth rb s) s) ->
+    k <> length m -> length m <> 1 -> k <> 1 -> twhere_torch (rb, m) o c = None.
+Proof. exact twhere_torch_refuses. Qed.
+Print Assumptions C02_nd_refused_by_torch.
+
+(** (3) the contract: whatever torch accepts by changing the shape (a mask of another length than its axis, a 0-d value) is outside *)
+Theorem C02_nd_contract_needs_fit :
+  forall rb m o c s, shape o = Some s -> nth_error s (mdepth rb s) <> Some (length m) -> twhere (rb, m) o c = None.
+Proof. exact twhere_needs_fit. Qed.
+Print Assumptions C02_nd_contract_needs_fit.
+
+(** inside the contract the selection IS what torch does, and it keeps the shape of the two sides *)
+Theorem C02_nd_contract_is_torch :
+  forall mk old cur r, nselect mk old cur = Some r -> nselect_torch mk old cur = Some r.
+Proof. exact nselect_sub_torch. Qed.
+Print Assumptions C02_nd_contract_is_torch.
+
+Theorem C02_nd_contract_keeps_shape :
+  forall mk o c r, twhere mk o c = Some r -> shape r = shape o /\ shape r = shape c.
+Proof. exact twhere_keeps_shape. Qed.
+Print Assumptions C02_nd_contract_keeps_shape.
+
+(** non-vacuity: a (3, 2) value under both alignments, each refusal, the shape-changing calls torch accepts, a (2, 2) weighted value
+    with non-boolean weights, the two rules that are NOT the code (weight of one side for all rows; mask aligned on the wrong
+    side) giving something else on the same input, a value weighted on one side only *)
+Definition C02_nd_select_examples_statement := ltac:(let t := type of nd_select_examples in exact t).
+Theorem C02_nd_select_examples : C02_nd_select_examples_statement.
+Proof. exact nd_select_examples. Qed.
+Print Assumptions C02_nd_select_examples.
